@@ -18,19 +18,29 @@ ops (one case = the requests sent over ONE connection, in order; or one `tokens`
                 are reproducible across runs although the token is fresh in every run.
         acrm / acrh / origin   value of Access-Control-Request-Method / -Headers / Origin (no spaces)
         body    request body (sent with Content-Length when not `-`, and always for POST)
+        optional trailing words: c=<k> connection number within the case (default 0; several
+                connections may be open at the same time) · v=1.0 HTTP/1.0 request line · nohost no
+                automatic Host header · h=<Name>:<value> a further header field, in op order (value
+                = template over the token, `+` = space) · te=chunked body sent chunked · pipe
+                written together with the next request before any response is read
     tokens <k>     start k further servers; compare all tokens of this run
+    anchor generate_token   shape of `generate_token` in the source tree the binary was built from
+    uri <hex>      `http::Uri::try_from(bytes)` (the parser hyper applies to the request-target) and
+                   `Uri::path()`, called in-process on arbitrary bytes
     enc <hex>      `nix_base32::to_nix_base32` on these bytes
 
 out:
 
-    r status=<n> acao=<*|-|other> acam=<std|-|other> acma=<86400|-|other> acah=<echo|-|other> acx=<-|n> body=<class>
-        acx = number of further `access-control-*` response headers; class = landing-p | landing-n |
+    r status=<n> acao=<*|-|other> acam=<std|-|other> acma=<86400|-|other> acah=<echo|-|other> acx=<-|n> xo=<-|n> body=<class>
+        acx = number of further `access-control-*` response headers; xo = number of `Timing-Allow-Origin` /
+        `Cross-Origin-Resource-Policy` response headers; class = landing-p | landing-n |
         profile | json | empty | other
     closed         no response: connection closed (panic of the connection task, or an earlier
                    request of the case killed / closed the connection)
     tokens distinct=<yes|no> len=<n|mixed> alphabet=<ok|bad> varied=<yes|no>
         (varied: no character position is the same in all compared tokens)
     tok <string> | panic
+    path <hex> | err
 -/
 namespace C18
 open Server Proto
@@ -91,6 +101,14 @@ structure ReqOp where
   acrh : Option String
   origin : Option String
   body : Option (List UInt8)
+  /-- connection number within the case (`c=<k>`, default 0) -/
+  conn : Nat := 0
+  /-- `v=1.0` -/
+  http11 : Bool := true
+  /-- `nohost`: no automatic `Host` header -/
+  noHost : Bool := false
+  /-- `h=<Name>:<value template>` in op order (`+` in the value = a space) -/
+  extra : Headers := []
 
 def field (w pre : String) : Option (Option String) :=
   if w.startsWith pre then
@@ -98,15 +116,31 @@ def field (w pre : String) : Option (Option String) :=
     some (if v = "-" then none else some v)
   else none
 
+/-- optional trailing words of a `req` line; transport-only words (`te=chunked`, `pipe`) do not
+change what the service function sees and are ignored here -/
+def applyExtra (tok : List Char) (r : ReqOp) (w : String) : ReqOp :=
+  if w = "v=1.0" then { r with http11 := false }
+  else if w = "nohost" then { r with noHost := true }
+  else if w.startsWith "c=" then { r with conn := nat! (w.drop 2).toString }
+  else if w.startsWith "h=" then
+    let nv := (w.drop 2).toString
+    match nv.splitOn ":" with
+    | name :: rest =>
+      let v := (expand tok (":".intercalate rest)).map fun c => if c = '+' then ' ' else c
+      { r with extra := r.extra ++ [(name.toList, v)] }
+    | [] => r
+  else r
+
 def parseReq (tok : List Char) (l : String) : Option ReqOp :=
   match words l with
-  | ["req", cfg, m, t, a, h, o, b] => do
+  | "req" :: cfg :: m :: t :: a :: h :: o :: b :: extras => do
     let acrm ← field a "acrm="
     let acrh ← field h "acrh="
     let origin ← field o "origin="
     let body ← field b "body="
-    pure { cfg := cfg, methodName := m, target := expand tok t, acrm := acrm, acrh := acrh,
-           origin := origin, body := body.map hexBytes }
+    let r : ReqOp := { cfg := cfg, methodName := m, target := expand tok t, acrm := acrm, acrh := acrh,
+                       origin := origin, body := body.map hexBytes }
+    pure (extras.foldl (applyExtra tok) r)
   | _ => none
 
 def cfgOf (tok : List Char) : String → Cfg
@@ -114,9 +148,16 @@ def cfgOf (tok : List Char) : String → Cfg
   | "d" => { pfx := '/' :: tok, profile := some ⟨false, false⟩ }
   | _ => { pfx := '/' :: tok, profile := some ⟨false, true⟩ }
 
-def reqOf (r : ReqOp) (path : List Char) : Req :=
-  { method := parseMethod r.methodName, path := path, hasACRM := r.acrm.isSome,
-    acrh := r.acrh.map String.toList,
+/-- the header block exactly in the order the harness writes it -/
+def headersOf (r : ReqOp) : Headers :=
+  (if r.noHost then [] else [("Host".toList, "127.0.0.1".toList)]) ++
+  (match r.origin with | some v => [("Origin".toList, v.toList)] | none => []) ++
+  (match r.acrm with | some v => [("Access-Control-Request-Method".toList, v.toList)] | none => []) ++
+  (match r.acrh with | some v => [("Access-Control-Request-Headers".toList, v.toList)] | none => []) ++
+  r.extra
+
+def wireOf (r : ReqOp) : WireReq :=
+  { methodTok := r.methodName.toList, target := r.target, http11 := r.http11, headers := headersOf r,
     bodyUtf8 := match r.body with
       | none => true
       | some bs => ByteArray.validateUTF8 ⟨bs.toArray⟩ }
@@ -129,47 +170,74 @@ def showResp (r : Resp) : String :=
     | .options _ => "empty"
     | .profile _ => "profile"
     | .api _ => "json"
-  s!"r status={r.status} acao={if r.allowOrigin then "*" else "-"} acam={if r.allowMethods then "std" else "-"} acma={if r.maxAge then "86400" else "-"} acah={if r.allowHeaders.isSome then "echo" else "-"} acx=- body={body}"
+  s!"r status={r.status} acao={if r.allowOrigin then "*" else "-"} acam={if r.allowMethods then "std" else "-"} acma={if r.maxAge then "86400" else "-"} acah={if r.allowHeaders.isSome then "echo" else "-"} acx=- xo=- body={body}"
 
-def rejectedLine : String := "r status=400 acao=- acam=- acma=- acah=- acx=- body=empty"
+def rejectedLine : String := "r status=400 acao=- acam=- acma=- acah=- acx=- xo=- body=empty"
 
 def tokensLine : String := "tokens distinct=yes len=39 alphabet=ok varied=yes"
 
-/-- model output of one request line; the Bool says whether the connection survives -/
-def modelReq (l : String) : String × Bool :=
-  match parseReq modelToken l with
-  | none => ("bad-op", false)
-  | some r =>
-    match pathOfTarget r.target with
-    | none => (rejectedLine, false)  -- hyper answers 400 and closes the connection
-    | some path =>
-      match service (cfgOf modelToken r.cfg) (reqOf r path) with
-      | .panic => ("closed", false)
-      | .resp resp =>
-        -- HEAD: hyper drops the body
-        let line := showResp resp
-        let line := if r.methodName = "HEAD" then
-            (line.splitOn " body=").headD line ++ " body=empty" else line
-        (line, true)
+/-- the source anchor of the unprovable clause (see `judgeAnchor`) -/
+def anchorLine : String := "anchor generate_token fn=found buf=24 rng=rand::rng() fill=fill_bytes:whole enc=to_nix_base32:whole shadow=no"
 
-def modelLine (l : String) (alive : Bool) : String × Bool :=
+/-- The bytes of a request-target as the character string the model works on. The parser never looks
+at what follows the first `#`; in front of it bytes that are not UTF-8 are always an error (a byte
+≥ 0x80 is no scheme / authority character, and path + query are checked with `from_utf8`). -/
+def decodeTarget (bs : List UInt8) : Option (List Char) :=
+  match String.fromUTF8? ⟨bs.toArray⟩ with
+  | some s => some s.toList
+  | none =>
+    let before := bs.takeWhile (· ≠ 0x23)
+    if before.length = bs.length then none else
+    match String.fromUTF8? ⟨before.toArray⟩ with
+    | some s => some (s.toList ++ ['#'])
+    | none => none
+
+def modelUri (h : String) : String :=
+  match decodeTarget (hexBytes h) with
+  | none => "err"
+  | some t =>
+    match pathOfTarget t with
+    | none => "err"
+    | some p => "path " ++ bytesHex (String.ofList p).toUTF8.toList
+
+/-- model output of one request line and the connections that are over afterwards
+(`Server.serveStep`: one step of `Server.serveCase`) -/
+def modelReq (l : String) (dead : List Nat) : String × List Nat :=
+  match parseReq modelToken l with
+  | none => ("bad-op", dead)
+  | some r =>
+    let (o, dead') := serveStep dead (r.conn, cfgOf modelToken r.cfg, wireOf r)
+    match o with
+    | .closed => ("closed", dead')
+    | .panic => ("closed", dead')
+    | .rejected => (rejectedLine, dead')  -- hyper answers 400 and closes the connection
+    | .resp resp =>
+      -- HEAD: hyper drops the body
+      let line := showResp resp
+      let line := if r.methodName = "HEAD" then
+          (line.splitOn " body=").headD line ++ " body=empty" else line
+      (line, dead')
+
+def modelLine (l : String) (dead : List Nat) : String × List Nat :=
   match words l with
-  | "req" :: _ => if alive then modelReq l else ("closed", false)
-  | ["tokens", _] => (tokensLine, alive)
+  | "req" :: _ => modelReq l dead
+  | ["tokens", _] => (tokensLine, dead)
+  | ["anchor", "generate_token"] => (anchorLine, dead)
   | ["enc", h] =>
     match encode (hexBytes h) with
-    | some s => ("tok " ++ String.ofList s, alive)
-    | none => ("panic", alive)
-  | _ => ("bad-op", alive)
+    | some s => ("tok " ++ String.ofList s, dead)
+    | none => ("panic", dead)
+  | ["uri", h] => (modelUri h, dead)
+  | _ => ("bad-op", dead)
 
 def model (ls : List String) : List String :=
-  let rec go (ls : List String) (alive : Bool) (acc : List String) : List String :=
+  let rec go (ls : List String) (dead : List Nat) (acc : List String) : List String :=
     match ls with
     | [] => acc.reverse
     | l :: rest =>
-      let (o, alive') := modelLine l alive
-      go rest alive' (o :: acc)
-  go ls true []
+      let (o, dead') := modelLine l dead
+      go rest dead' (o :: acc)
+  go ls [] []
 
 /-! ## Judge: the statement of C18 evaluated on the implementation's own responses -/
 
@@ -182,33 +250,63 @@ def kv (ws : List String) (key : String) : String :=
 no `access-control-*` header of any kind, and a body that is the landing page or empty with an error
 status (404 from the service function; 400 when the HTTP layer rejects the request line itself).
 Under the prefix the statement demands nothing. A dropped connection counts as an answer only under
-the prefix (or after an earlier request of the same connection ended it). -/
-def judgeReq (l o : String) (alive : Bool) : (Bool × String) × Bool :=
+the prefix, or when the connection was over before: an earlier request of the same connection was
+dropped / rejected with 400, or the client itself ended it (`Connection: close`, HTTP/1.0 without
+keep-alive). `dead` = the connections of the case that are over. Headers of the request — whatever they
+are, with or without the token in them — play no role in the verdict. -/
+def judgeReq (l o : String) (dead : List Nat) : (Bool × String) × List Nat :=
   match parseReq modelToken l with
-  | none => ((false, "bad-op"), false)
+  | none => ((false, "bad-op"), dead)
   | some r =>
     let path? := pathOfTarget r.target
     let under := match path? with
       | some p => ('/' :: modelToken).isPrefixOf p
       | none => false
+    let kill := if dead.contains r.conn then dead else r.conn :: dead
     if o = "closed" then
-      if !alive then ((true, "ok"), false)
-      else if under then ((true, "ok"), false)
-      else ((false, s!"connection dropped without a response outside the secret prefix: {r.methodName} {String.ofList r.target}"), false)
+      if dead.contains r.conn then ((true, "ok"), dead)
+      else if under then ((true, "ok"), kill)
+      else ((false, s!"connection dropped without a response outside the secret prefix: {r.methodName} {String.ofList r.target}"), kill)
     else
       let ws := words o
-      if ws.head? ≠ some "r" then ((false, s!"bad output line {o}"), false) else
-      if under then ((true, "ok"), true) else
+      if ws.head? ≠ some "r" then ((false, s!"bad output line {o}"), kill) else
+      -- the client ended the connection with this request
+      -- (an HTTP/1.0 connection may be ended by the server after any response)
+      let after := if r.http11 && keepAlive (wireOf r) then dead else kill
+      if under then ((true, "ok"), after) else
       let what := s!"{r.methodName} {String.ofList r.target} (path does not begin with the token prefix)"
-      let cors := [kv ws "acao", kv ws "acam", kv ws "acma", kv ws "acah", kv ws "acx"]
+      let cors := [kv ws "acao", kv ws "acam", kv ws "acma", kv ws "acah", kv ws "acx", kv ws "xo"]
       if cors.any (· ≠ "-") then
-        ((false, s!"cross-origin permission header outside the secret prefix: {o} for {what}"), true)
+        ((false, s!"cross-origin permission header outside the secret prefix: {o} for {what}"), after)
       else
         let body := kv ws "body"
         let status := kv ws "status"
-        if body = "landing-p" ∨ body = "landing-n" then ((true, "ok"), true)
-        else if body = "empty" ∧ (status = "404" ∨ status = "400") then ((true, "ok"), status = "404")
-        else ((false, s!"neither landing page nor an empty 404 outside the secret prefix: {o} for {what}"), true)
+        if body = "landing-p" ∨ body = "landing-n" then ((true, "ok"), after)
+        else if body = "empty" ∧ (status = "404" ∨ status = "400") then
+          ((true, "ok"), if status = "404" then after else kill)
+        else ((false, s!"neither landing page nor an empty 404 outside the secret prefix: {o} for {what}"), after)
+
+/-- Source anchor of the clause that cannot be proved or observed ("the token is freshly random"):
+the harness reads `generate_token` (samply/src/server.rs) from the tree the binary under test was built
+from and reports its shape. Demanded: a 24-byte buffer, filled as a whole by `fill_bytes` /
+`try_fill_bytes(..).unwrap()` of an OS-seeded generator of the `rand` crate (`rand::rng()` = `ThreadRng`,
+ChaCha12 seeded and reseeded from the OS; or `OsRng` itself), the whole buffer handed to
+`nix_base32::to_nix_base32`, and no item of server.rs shadowing the name `rand`. Any other shape of the
+function (a seeded `SmallRng` / `StdRng::seed_from_u64`, the time, the pid) is reported. -/
+def judgeAnchor (o : String) : Bool × String :=
+  let ws := words o
+  if ws.take 2 ≠ ["anchor", "generate_token"] then (false, s!"bad output line {o}") else
+  if kv ws "fn" ≠ "found" then
+    (false, s!"generate_token no longer has the audited shape (24 bytes from an OS-seeded rand generator, base-32): {o}")
+  else if kv ws "buf" ≠ "24" then (false, s!"generate_token: the random buffer is not 24 bytes: {o}")
+  else if !(["rand::rng()", "rand::rngs::OsRng", "OsRng", "rand::rngs::OsRng.unwrap_err()", "OsRng.unwrap_err()"].contains (kv ws "rng")) then
+    (false, s!"generate_token: the bytes do not come from an OS-seeded generator: {o}")
+  else if !(["fill_bytes:whole", "try_fill_bytes:whole"].contains (kv ws "fill")) then
+    (false, s!"generate_token: the buffer is not filled as a whole: {o}")
+  else if kv ws "enc" ≠ "to_nix_base32:whole" then
+    (false, s!"generate_token: the token is not the base-32 encoding of the whole buffer: {o}")
+  else if kv ws "shadow" ≠ "no" then (false, s!"server.rs shadows the name `rand`: {o}")
+  else (true, "ok")
 
 def judgeEnc (h o : String) : Bool × String :=
   let bs := hexBytes h
@@ -223,23 +321,72 @@ def judgeEnc (h o : String) : Bool × String :=
     else (true, "ok")
   | _ => (false, s!"bad output line {o}")
 
+def bytesHaveSub (sub : List UInt8) (l : List UInt8) : Bool :=
+  (List.range (l.length + 1)).any fun k => sub.isPrefixOf (l.drop k)
+
+/-- Specification of `Uri::path()` as far as C18 needs it: the path is a literal, contiguous piece of
+the request-target without `?` / `#`, ending where the target ends or a `?` / `#` follows; for a target
+that begins with `/` it is everything up to the first `?` / `#`; otherwise it is empty, `*`, the `/` an
+absent path reads as, or it begins with `/` and stands behind `<scheme>://<authority>` where the
+authority has no `/ ? #` in it. -/
+def judgeUri (h o : String) : Bool × String :=
+  let t := hexBytes h
+  let isEnd (b : UInt8) : Bool := b = 0x3F || b = 0x23
+  match words o with
+  | ["err"] => (true, "ok")
+  | ["path", ph] =>
+    let p := hexBytes ph
+    if p.any isEnd then (false, "Uri::path() contains ? or #")
+    else if t.head? = some 0x2F then
+      if p = t.takeWhile (fun b => !isEnd b) then (true, "ok")
+      else (false, "Uri::path() of an origin-form target is not the part before the first ? / #")
+    else if p = [] ∨ p = [0x2A] then
+      if p = [0x2A] ∧ t ≠ [0x2A] then (false, "Uri::path() is * for a target that is not *") else (true, "ok")
+    else
+      let okAt (k : Nat) : Bool :=
+        let a := t.take k
+        let b := t.drop (k + p.length)
+        p.isPrefixOf (t.drop k) && (b.isEmpty || (b.head?.map isEnd).getD false) && !a.any isEnd &&
+        bytesHaveSub [0x3A, 0x2F, 0x2F] a &&
+        -- no `/` between the first `://` and the path
+        (let i := (List.range a.length).find? fun i => [0x3A, 0x2F, 0x2F].isPrefixOf (a.drop i)
+         match i with
+         | some i => !(a.drop (i + 3)).any (· = 0x2F) && (a.drop (i + 3)).length > 0
+         | none => false)
+      if p = [0x2F] then
+        -- the `/` of the target itself, or an absent path
+        if (List.range (t.length + 1)).any fun k =>
+            okAt k || (k = t.length ∨ (t.drop k).head?.map isEnd = some true) && !(t.take k).any isEnd &&
+              bytesHaveSub [0x3A, 0x2F, 0x2F] (t.take k) then (true, "ok")
+        else (false, "Uri::path() is / but the target has no such path")
+      else if p.head? ≠ some 0x2F then (false, "Uri::path() does not begin with /")
+      else if (List.range t.length).any okAt then (true, "ok")
+      else (false, "Uri::path() is not the literal path of the target")
+  | _ => (false, s!"bad output line {o}")
+
 def judge (ops impl : List String) : Bool × String :=
   if ops.length ≠ impl.length then (false, "wrong number of output lines") else
-  let rec go (ops impl : List String) (alive : Bool) : Bool × String :=
+  let rec go (ops impl : List String) (dead : List Nat) : Bool × String :=
     match ops, impl with
     | l :: ls, o :: os =>
       match words l with
       | "req" :: _ =>
-        let (v, alive') := judgeReq l o alive
-        if v.1 then go ls os alive' else v
+        let (v, dead') := judgeReq l o dead
+        if v.1 then go ls os dead' else v
       | ["tokens", _] =>
-        if o = tokensLine then go ls os alive
+        if o = tokensLine then go ls os dead
         else (false, s!"tokens of several server starts are not distinct 39-character base-32 strings: {o}")
+      | ["anchor", "generate_token"] =>
+        let v := judgeAnchor o
+        if v.1 then go ls os dead else v
       | ["enc", h] =>
         let v := judgeEnc h o
-        if v.1 then go ls os alive else v
+        if v.1 then go ls os dead else v
+      | ["uri", h] =>
+        let v := judgeUri h o
+        if v.1 then go ls os dead else v
       | _ => (false, "bad-op")
     | _, _ => (true, "ok")
-  go ops impl true
+  go ops impl []
 
 end C18
